@@ -228,10 +228,22 @@ func C14(tier rt.Tier) int {
 			{name: "mem-3symbols", kind: Mem, paths: Paths("0af", 4), vals: adversarialValues[:2], depth: 4, version: 0},
 		}
 	}
+	if rt.SubRun {
+		// BatchSize = 2: every flush of more than two nodes is a multi-batch store write
+		runs = []alphabet{
+			{name: rt.VariantPrefix + "level-pnodedb", kind: LevelP, paths: p2[:9], vals: []string{":", "\xff\xff"}, flush: true, bump: 1, depth: 4, version: 3},
+			{name: rt.VariantPrefix + "level-mem", kind: LevelMem, paths: p2[:9], vals: []string{"::x:"}, flush: true, depth: 4, version: 1},
+		}
+		if tier == rt.Thorough {
+			runs[0].paths, runs[0].depth = p2, 5
+			runs[1].paths, runs[1].depth = p2, 5
+		}
+	}
 	for _, a := range runs {
 		runAlphabet(rep, a, time.Now().Add(per), storeOracle)
 	}
+	rep.RunVariant()
 	rep.Set("rule", "BFS over all histories with separator-laden/binary values and negative/zero/huge versions on memory, layered and persistent(stand-in) stores; at every state every node of every store level must be keyed by GetHashBytes(), CreateNode(Encode(n)) must have the same hash and encoding, and a trie re-read from the store must reference every node by its recomputed hash")
 	rep.Assumption("RocksDB is replaced by an in-memory write-log stand-in; PNodeDB encoding/decoding code is real")
-	return rep.Finish()
+	return rep.End()
 }
